@@ -13,14 +13,14 @@ QUICK = [
                   "MaxStmts": "2", "MaxModStmts": "2"}, (1500, 60)),
     ("scopefn", {"Fam": "<- FamScopeFn", "LitPool": "<- Lits2", "Names": "<- Names3", "BinOps": "<- Ops2",
                  "SigPool": "<- Sigs2", "MaxN": "5", "MaxStk": "3", "MaxCtx": "2", "MaxStmts": "4"}, (2500, 70)),
-    ("sim", dict(c01.QUICK[-1][1]), (1200, 70)),
+    ("sim", dict([f for f in c01.QUICK if f[0] == "sim"][0][1]), (1200, 70)),
 ]
 THOROUGH = [
     ("rebind", {"Fam": "<- FamRebind", "LitPool": "<- Lits3", "Names": "<- Names3", "BinOps": "<- Ops2", "MaxN": "3",
                 "MaxStk": "2", "MaxStmts": "2"}, None),
     ("scopemod", dict(QUICK[1][1]), (40000, 60)),
     ("scopefn", dict(QUICK[2][1]), (60000, 70)),
-    ("sim", dict(c01.QUICK[-1][1]), (40000, 80)),
+    ("sim", dict([f for f in c01.QUICK if f[0] == "sim"][0][1]), (40000, 80)),
 ]
 
 RULE = ("programs = behaviours of Gen.tla with the scope probes (a module body referring to a binding of the enclosing "
